@@ -4,6 +4,7 @@ mod witness;
 mod run;
 mod gen;
 mod c16;
+mod c17;
 mod tables;
 
 fn main() {
@@ -42,6 +43,7 @@ fn main() {
             let params = run::Params { tier_thorough: tier == "thorough", seed };
             let mut r = match id.as_str() {
                 "C16" => c16::run(&params),
+                "C17" => c17::run(&params),
                 _ => { eprintln!("unknown property {}", id); std::process::exit(2); }
             };
             // the witnesses of this property run as part of every check (regression corpus)
